@@ -115,6 +115,7 @@ def ms_parsed(fam):
             text += f'priority: {prio}\n'
         text += '\n'
     keys = [sel.spec_key_from_ast(e) for (_, e, _, _, _) in spec]
+    prios = [50 if p is None else p for (_, _, _, _, p) in spec]       # what the file says (documented default 50)
 
     def ob(b0: bool, b1: bool, b2: bool, b3: bool) -> bool:
         """
@@ -129,12 +130,13 @@ def ms_parsed(fam):
         sel.inject_truth(rules, bs)
         res = eng.match(dict(sel.TXN))
         bsc = [bool(b) for b in bs]
-        best, sbest = sel.most_specific_oracle(rules, bsc, keys)
+        best, sbest = sel.most_specific_oracle(rules, bsc, keys, prios)
         if best is None:
             ok = (not res.matched) and res.category == ''
         else:
             ok = res.matched and res.matched_rule is best and res.category == best.category
             ok = ok and res.subcategory == (sbest.subcategory if sbest is not None else '')
+        ok = ok and [r.priority for r in rules] == prios
         # the file is what the text says: one rule per header, in order
         ok = ok and [r.name for r in rules] == [x[0] for x in spec]
         return post(ok)
